@@ -686,6 +686,8 @@ static void exec_common(const plan_t *p)
             spif_obj_t c;
             spif_classname_t t1, t2;
             if (d < 0 || d >= NSLOT || obj[d]) continue;
+            /* a list that has just been read by position (an implementation may remember where the last look-up ended) */
+            if (IS_LIST(okind[s]) && o->na > 2 && o->a[2]) { long n = (long)SPIF_LIST_COUNT(obj[s]); if (n) (void)SPIF_LIST_GET(obj[s], (spif_listidx_t)((o->a[2] - 1) % n)); }
             c = SPIF_OBJ_DUP(obj[s]);
             if (!c) FAIL("MISMATCH", "dup-null", okind[s], "dup returned NULL");
             if (c == obj[s]) FAIL("MISMATCH", "dup-same-object", okind[s], "dup returned the original object");
@@ -695,6 +697,17 @@ static void exec_common(const plan_t *p)
             t1 = SPIF_OBJ_TYPE(obj[s]); t2 = SPIF_OBJ_TYPE(c);
             if (t1 != t2) FAIL("MISMATCH", "type", okind[s], "type() of the copy differs from type() of the original");
             if (!t1 || strcmp((const char *)t1, (const char *)SPIF_OBJ_CLASS(obj[s])->classname)) FAIL("MISMATCH", "type-names-class", okind[s], "type() does not return the class's name string");
+            if (IS_LIST(okind[s]) && o->na > 2 && o->a[2] && SPIF_OBJ_CLASS(c) == SPIF_OBJ_CLASS(obj[s])) {
+                /* ... and its copy read the same way, from the far end down: what a position of the copy hands out is the copy's own
+                   element, never the original's */
+                long n = (long)SPIF_LIST_COUNT(c);
+                for (long j = n - 1; j >= 0; j--) {
+                    spif_obj_t ec = SPIF_LIST_GET(c, (spif_listidx_t)j), eo = SPIF_LIST_GET(obj[s], (spif_listidx_t)j);
+                    if (ec && !sa_readable(ec, sizeof(void *))) FAIL("INVARIANT", "dangling-element", okind[s], "position %ld of a fresh copy hands out something that is not a live object", j);
+                    if (ec && ec == eo) FAIL("MISMATCH", "dup-shares-elements", okind[s], "position %ld of a fresh copy hands out the original's element object", j);
+                }
+                probe_hit("copy_read_by_position");
+            }
             if (mode_c05) {
                 observe(&cur, d);
                 if (cur.len != last[s].len || memcmp(cur.b, last[s].b, cur.len)) FAIL("MISMATCH", "dup-value", okind[s], "copy observes as {%.80s} but the original as {%.80s}", cur.b, last[s].b);
@@ -817,7 +830,7 @@ static void gen_common(plan_t *p, rng_t *r, int c05)
             else op_str(o, t, strlen(t));
         }
         else if (k < 50) { if (rng_chance(r, 1, 3)) plan_op(p, 0, "query", 3, (long)s, (long)rng_below(r, 1000), (long)rng_range(r, 1, 6)); else plan_op(p, 0, "query", 2, (long)s, (long)rng_below(r, 1000)); }
-        else if (k < 72) { int d = (int)rng_below(r, NSLOT); if (!ex[d]) { plan_op(p, 0, "dup", 2, (long)s, (long)d); ex[d] = 1; kinds[d] = kinds[s]; } }
+        else if (k < 72) { int d = (int)rng_below(r, NSLOT); if (!ex[d]) { if (rng_chance(r, 1, 2)) plan_op(p, 0, "dup", 3, (long)s, (long)d, (long)rng_range(r, 1, 30)); else plan_op(p, 0, "dup", 2, (long)s, (long)d); ex[d] = 1; kinds[d] = kinds[s]; } }
         else if (k < 80) plan_op(p, 0, "donereinit", 2, (long)s, (long)rng_below(r, 1000));
         else if (k < 82) { int w = (int)rng_below(r, 3); plan_op(p, 0, w == 0 ? "it_new" : w == 1 ? "it_next" : "it_del", 2, (long)s, (long)rng_below(r, 2)); }
         else { plan_op(p, 0, "del", 1, (long)s); ex[s] = 0; }
